@@ -47,6 +47,8 @@ def loops_cover(e1, e2):
     # e1 inside loops that e2 is not in: they must be loops that run at least once
     # per element of a configuration list (never zero iterations)
     for lc in rest1:
+        if str(lc.tag).startswith("lit"):
+            continue  # an unrolled literal loop: this iteration is executed, like straight-line code
         if lc.kind != "cfglist":
             return False
     return True
@@ -302,6 +304,11 @@ def _r1_run(chk, m, mname, run):
             continue
         role = cell[0]
         if role in ACCUM_EXEMPT_ROLES:
+            continue
+        if any(x_ == "?" for x_ in cell[1:] if isinstance(x_, str)):
+            # the storage key was not resolved (built dynamically in a way outside the fragment): never an alarm
+            if e.op != "=":
+                chk.undecided("R1", "%s.%s: %s %s (key not resolved)" % (c.name, mname, cell_txt(cell), e.op), where(c, e.lineno), "storage key not resolved")
             continue
         if role == "in":
             # is the alias definite?  x = inputs[k][0] is a numpy scalar (a copy) when the input is
